@@ -270,6 +270,18 @@ def go_history(ctx, eid):
         if now and now[0] and now[0][0] == 'broken':
             break
         absent = absent_tuples(rng, rows)
+        if rng.random() < 0.5:
+            # an index built FROM the grown hierarchy before anything re-reads it (its cached table may be stale at this point): every
+            # view of the new index must already describe the grown sequence of tuples
+            name, mk = rng.choice([('IndexHierarchy(go)', lambda: sf.IndexHierarchy(ih)), ('IndexHierarchyGO(go)', lambda: sf.IndexHierarchyGO(ih)),
+                                   ('rename', lambda: ih.rename('r')), ('copy', lambda: ih.copy()), ('to_static_via_series', lambda: sf.Series(list(range(len(rows))), index=ih).index),
+                                   ('frame_columns', lambda: sf.Frame.from_records([list(range(len(rows)))], columns=ih).columns)])
+            try:
+                d = mk()
+                obs = observe(d, rows, absent)
+            except Exception as e:
+                obs = {'k': 'err', 'cat': P.err_category(e), 'msg': str(e)[:80]}
+            events.append({'id': eid + len(events), 'kind': 'views', 'rows': list(rows), 'absent': absent, 'obs': obs, 'route': 'go:derived_' + name})
         events.append({'id': eid + len(events), 'kind': 'views', 'rows': list(rows), 'absent': absent, 'obs': observe(ih, rows, absent), 'route': 'go:after_' + act['name']})
     return events
 
